@@ -2274,9 +2274,17 @@ vbi_decode_teletext(vbi_decoder *vbi, uint8_t *buffer)
 			case PAGE_FUNCTION_GDRCS:
 			{
 				if (convert_drcs(vtp,
-						 vtp->data.drcs.lop.raw[1]))
-					_vbi_cache_put_page (vbi->ca,
-							     vbi->cn, vtp);
+						 vtp->data.drcs.lop.raw[1])) {
+					cache_page *new_cp;
+
+					new_cp = _vbi_cache_put_page
+						(vbi->ca, vbi->cn, vtp);
+					/* Drop the reference returned by
+					   _vbi_cache_put_page(), otherwise the
+					   page (and its network) can never
+					   be deleted. */
+					cache_page_unref (new_cp);
+				}
 				break;
 			}
 
